@@ -722,17 +722,14 @@ func (s *BaseNodeService) processMessage(message storage.Message) (*types.Operat
 				}
 			}
 			//if we have an error during signing procedure, start a new signing procedure
-			_, fsmDump, err := fsmInstance.Do(sif.EventSigningRestart, requests.DefaultRequest{
+			_, _, err := fsmInstance.Do(sif.EventSigningRestart, requests.DefaultRequest{
 				CreatedAt: time.Now(),
 			})
 			if err != nil {
 				return nil, fmt.Errorf("failed to Do operation in FSM: %w", err)
 			}
-
-			if err := s.fsmService.SaveFSM(message.DkgRoundID, fsmDump); err != nil {
-				return nil, fmt.Errorf("failed to SaveFSM: %w", err)
-
-			}
+			// the restarted round is saved together with the effect of the message (below):
+			// a message that is rejected leaves the stored round as it was
 		}
 	}
 
@@ -750,16 +747,13 @@ func (s *BaseNodeService) processMessage(message storage.Message) (*types.Operat
 				fsmInstance.FSMDump().Payload.SigningProposalPayload.BatchID)
 
 			//if we have an error during signing procedure, start a new signing procedure
-			_, fsmDump, err := fsmInstance.Do(sif.EventSigningRestart, requests.DefaultRequest{
+			_, _, err := fsmInstance.Do(sif.EventSigningRestart, requests.DefaultRequest{
 				CreatedAt: time.Now(),
 			})
 			if err != nil {
 				return nil, fmt.Errorf("failed to Do operation in FSM: %w", err)
 			}
-
-			if err := s.fsmService.SaveFSM(message.DkgRoundID, fsmDump); err != nil {
-				return nil, fmt.Errorf("failed to SaveFSM: %w", err)
-			}
+			// saved together with the effect of the message, see above
 		}
 	}
 
